@@ -43,6 +43,8 @@ def sh(cmd, cwd=None, timeout=None):
     except subprocess.TimeoutExpired:
         os.killpg(p.pid, signal.SIGKILL)
         p.communicate()
+        # nextest starts every test in a process group of its own: a mutant that loops forever leaves them behind
+        subprocess.run(['pkill', '-9', '-f', f'{REPO}/target/'], capture_output=True)
         raise
     return subprocess.CompletedProcess(cmd, p.returncode, out, err)
 
